@@ -146,7 +146,8 @@ where
                 break;
             }
         }
-        for c in self.text().chars().rev() {
+        //(characters that were already trimmed from the begin must not be trimmed from the end again)
+        for c in self.text().chars().rev().take(self.textlen() - trimbegin) {
             if chars.contains(&c) {
                 trimend -= 1;
             } else {
@@ -174,7 +175,8 @@ where
                 break;
             }
         }
-        for c in self.text().chars().rev() {
+        //(characters that were already trimmed from the begin must not be trimmed from the end again)
+        for c in self.text().chars().rev().take(self.textlen() - trimbegin) {
             if f(c) {
                 trimend -= 1;
             } else {
